@@ -278,7 +278,6 @@ SP(kind, a, r, b) == [sp |-> kind, pv |-> "", start |-> a, segs |-> <<[rel |-> r
 Ranges == {<<1, 2>>, <<0, 1>>, <<2, 2>>, <<1, 3>>, <<1, 1>>, <<0, 0>>, <<2, 3>>}
 FamVar ==
     {Q1(<<Match(<<Path1(a0, VL("", <<>>, d, lh[1], lh[2]), b0)>>, NoX), RetAB>>) : d \in Dirs, lh \in Ranges}
-    \cup {Q1(<<Match(<<Path1(a0, VL("r", <<>>, d, lh[1], lh[2]), b0)>>, NoX), RetARB>>) : d \in {"out", "both"}, lh \in {<<1, 2>>, <<0, 1>>, <<2, 3>>}}
     \cup {Q1(<<Match(<<Path1(a0, VL("", <<"T">>, "out", 1, 2), b0)>>, NoX), RetAB>>),
           Q1(<<Match(<<Path1(a0, VL("", <<>>, "out", 1, 2), a0)>>, NoX), Ret(<<Item(va, "")>>)>>),
           Q1(<<Match(<<Path2(a0, RP("r", <<>>, "out", <<>>), b0, VL("", <<>>, "out", 1, 2), c0)>>, NoX), Ret(<<Item(va, ""), Item(Var("r"), ""), Item(Var("c"), "")>>)>>),
@@ -287,7 +286,7 @@ FamVar ==
           Q1(<<MA, OptMatch(<<Path1(a0, VL("", <<>>, "out", 2, 2), b0)>>, NoX), RetAB>>)}
 FamShort ==
     {Q1(<<Match(<<SP(k, a0, VL("", <<>>, d, lh[1], lh[2]), b0)>>, w), RetAB>>) :
-        k \in {"shortest"}, d \in Dirs, lh \in {<<1, 2>>, <<1, 3>>}, w \in {NoX, Cmp("<>", va, vb)}}
+        k \in {"shortest"}, d \in Dirs, lh \in {<<1, 2>>, <<1, 3>>}, w \in {Cmp("<>", va, vb)}}
     \cup {Q1(<<Match(<<Path0(a0), Path0(b0)>>, Cmp("<>", va, vb)), Match(<<SP("shortest", a0, VL("", <<>>, "out", 1, 3), b0)>>, NoX), RetAB>>)}
     \cup {Q1(<<Match(<<SP("all", a0, VL("", <<>>, d, 1, 3), b0)>>, Cmp("<>", va, vb)), RetAB>>) : d \in {"out", "both"}}
 
@@ -397,6 +396,7 @@ EmitAsk == (q' # NoQ) => PrintT(<<"SCRIPT", ToJson(hist')>>)
 SimEmit == Asked => PrintT(<<"SCRIPT", ToJson(hist)>>)
 
 \* ------------------------------------------------------------------ design-level laws of the reference semantics
+NoLaw == TRUE     \* enumeration-only runs
 Results == Poss(G, q, Dev)
 \* the semantics is total and its tables are well formed
 WellFormed ==
@@ -408,7 +408,7 @@ AllLabelsLaw ==
       \A pi \in DOMAIN q.parts :
         LET c == q.parts[pi].clauses[1] IN
         c.c = "match" =>
-          \A us \in UnionChoices(c, Dev) : \A m \in MatchExt(G, c, [x \in {} |-> VNull], us) :
+          \A us \in UnionChoices(c, Dev) : \A m \in DOMAIN MatchExt(G, c, [x \in {} |-> VNull], us, Dev) :
             \A i \in DOMAIN c.paths : \A j \in 1..(Len(c.paths[i].segs) + 1) :
                LET pat == NodePatAt(c.paths[i], j) IN
                pat.x # "" => \A k \in DOMAIN pat.labels : pat.labels[k] \in G.nodes[m[pat.x].n].labels
